@@ -9,6 +9,7 @@ package http
 // independently below (c18Oracle).
 
 import (
+	"bufio"
 	"bytes"
 	"compress/gzip"
 	"context"
@@ -22,6 +23,7 @@ import (
 	"io"
 	"math/rand"
 	"net"
+	nethttp "net/http"
 	"sort"
 	"strconv"
 	"strings"
@@ -251,6 +253,30 @@ type c18Input struct {
 	Present  bool       `json:"present"` // credentials sent at all
 	User     string     `json:"user"`
 	Pass     string     `json:"pass"`
+}
+
+// one request of a connection
+type c18StepIn struct {
+	Endpoint string `json:"endpoint"`
+	Variant  string `json:"variant"`
+	Present  bool   `json:"present"`
+	User     string `json:"user"`
+	Pass     string `json:"pass"`
+}
+
+// c18Conn is one case: a connection to one of the two services, the credentials file of the
+// store, and the requests sent over it in order (one request = the old single exchange).
+type c18Conn struct {
+	Kind    string      `json:"kind"`
+	NoStore bool        `json:"no_store"`
+	File    []c18Entry  `json:"file"`
+	Steps   []c18StepIn `json:"steps"`
+}
+
+func (c c18Conn) step(i int) c18Input {
+	st := c.Steps[i]
+	return c18Input{Kind: c.Kind, Endpoint: st.Endpoint, Variant: st.Variant, NoStore: c.NoStore, File: c.File,
+		Present: st.Present, User: st.User, Pass: st.Pass}
 }
 
 var c18Perms = []string{"all", "join", "join-read-only", "join-read-replica", "remove", "execute", "query",
@@ -661,6 +687,187 @@ func c18NodeExchange(r *c18Rig, in c18Input, typ clstrPB.Command_Type) (c18Obs, 
 	return o, nil
 }
 
+// ---------------------------------------------------------------- several requests on ONE connection
+
+// c18HTTPSeq sends the requests over one keep-alive HTTP connection, reading each response completely
+// (net/http's response reader on the raw socket) before the next request is written.
+func c18HTTPSeq(r *c18Rig, c c18Conn) ([]c18Obs, error) {
+	svc := r.httpAuth
+	if c.NoStore {
+		svc = r.httpOpen
+	}
+	conn, err := net.DialTimeout("tcp", svc.Addr().String(), 5*time.Second)
+	if err != nil {
+		return nil, err
+	}
+	defer conn.Close()
+	conn.SetDeadline(time.Now().Add(60 * time.Second))
+	br := bufio.NewReader(conn)
+	var obs []c18Obs
+	r.rec.take()
+	for i := range c.Steps {
+		in := c.step(i)
+		req, ok := c18HTTPReqs[in.Endpoint]
+		if !ok {
+			req = c18HTTPReq{"GET", strings.TrimPrefix(in.Endpoint, "http:"), "", nil}
+		}
+		method := req.method
+		if in.Variant == "wrong-method" {
+			method = "PUT"
+		}
+		var sb bytes.Buffer
+		fmt.Fprintf(&sb, "%s %s HTTP/1.1\r\nHost: verif\r\n", method, req.target)
+		if in.Present {
+			fmt.Fprintf(&sb, "Authorization: Basic %s\r\n", base64.StdEncoding.EncodeToString([]byte(in.User+":"+in.Pass)))
+		}
+		if req.ctype != "" {
+			fmt.Fprintf(&sb, "Content-Type: %s\r\n", req.ctype)
+		}
+		fmt.Fprintf(&sb, "Content-Length: %d\r\n\r\n", len(req.body))
+		sb.Write(req.body)
+		if _, err := conn.Write(sb.Bytes()); err != nil {
+			return obs, fmt.Errorf("request %d: %v", i, err)
+		}
+		resp, err := nethttp.ReadResponse(br, &nethttp.Request{Method: method})
+		if err != nil {
+			return obs, fmt.Errorf("response %d: %v", i, err)
+		}
+		body, _ := io.ReadAll(resp.Body)
+		resp.Body.Close()
+		var hd bytes.Buffer
+		resp.Header.Write(&hd)
+		o := c18Obs{calls: r.rec.take(), raw: append(hd.Bytes(), body...)}
+		switch resp.StatusCode {
+		case 401:
+			o.out = []string{"F:unauthorized"}
+		case 405:
+			o.out = []string{"F:method not allowed"}
+		default:
+			o.out = []string{"F:"}
+		}
+		if bytes.Contains(body, []byte("SECRET-BACKUP")) {
+			o.out = append(o.out, "D:Backup")
+		}
+		obs = append(obs, o)
+	}
+	return obs, nil
+}
+
+// c18ReadItem reads one wire item written by a cluster.Service: a response frame or the raw backup marker.
+func c18ReadItem(br *bufio.Reader) (item string, raw []byte, err error) {
+	hdr := make([]byte, 8)
+	if _, err = io.ReadFull(br, hdr); err != nil {
+		return "", nil, err
+	}
+	if bytes.Equal(hdr, c18StreamMark[:8]) {
+		rest := make([]byte, len(c18StreamMark)-8)
+		if _, err = io.ReadFull(br, rest); err != nil {
+			return "", hdr, err
+		}
+		return "D:Backup", append(hdr, rest...), nil
+	}
+	sz := binary.LittleEndian.Uint64(hdr)
+	if sz > 64<<20 {
+		return "", hdr, fmt.Errorf("implausible frame length %d", sz)
+	}
+	p := make([]byte, sz)
+	if _, err = io.ReadFull(br, p); err != nil {
+		return "", hdr, err
+	}
+	raw = append(hdr, p...)
+	if len(p) > 2 && p[0] == 0x1f && p[1] == 0x8b {
+		if zr, e := gzip.NewReader(bytes.NewReader(p)); e == nil {
+			if q, e := io.ReadAll(zr); e == nil {
+				p = q
+				raw = append(raw, q...)
+			}
+		}
+	}
+	return "F:" + c18Field1(p), raw, nil
+}
+
+// c18NodeSeq sends the commands over one inter-node connection.  After each command a
+// GET_NODE_META carrying the same credentials is sent as a fence: the service handles a connection
+// sequentially, so once the fence is answered everything the command caused (calls, response,
+// streamed bytes) has happened and is attributed to that command.
+func c18NodeSeq(r *c18Rig, c c18Conn) ([]c18Obs, error) {
+	addr, hwm := r.muxAuth, r.hwmAuth
+	if c.NoStore {
+		addr, hwm = r.muxOpen, r.hwmOpen
+	}
+	conn, err := net.DialTimeout("tcp", addr, 5*time.Second)
+	if err != nil {
+		return nil, err
+	}
+	defer conn.Close()
+	conn.SetDeadline(time.Now().Add(60 * time.Second))
+	br := bufio.NewReader(conn)
+	if _, err := conn.Write([]byte{cluster.MuxClusterHeader}); err != nil {
+		return nil, err
+	}
+	frame := func(cmd *clstrPB.Command) []byte {
+		p, _ := pb.Marshal(cmd)
+		return append(binary.LittleEndian.AppendUint64(nil, uint64(len(p))), p...)
+	}
+	var obs []c18Obs
+	r.rec.take()
+	for len(hwm) > 0 {
+		<-hwm
+	}
+	for i := range c.Steps {
+		in := c.step(i)
+		fence := &clstrPB.Command{Type: clstrPB.Command_COMMAND_TYPE_GET_NODE_META}
+		if in.Present {
+			fence.Credentials = &clstrPB.Credentials{Username: in.User, Password: in.Pass}
+		}
+		msg := append(frame(c18Command(c18TypeByName[in.Endpoint], in.Variant, in)), frame(fence)...)
+		if _, err := conn.Write(msg); err != nil {
+			return obs, fmt.Errorf("command %d: %v", i, err)
+		}
+		var o c18Obs
+		frames := 0
+		for frames < 2 {
+			item, raw, err := c18ReadItem(br)
+			if err != nil {
+				o.calls = r.rec.take()
+				obs = append(obs, o)
+				return obs, fmt.Errorf("command %d: reading the service's answer: %v", i, err)
+			}
+			if strings.HasPrefix(item, "F:") {
+				frames++
+				if frames == 2 {
+					if item != "F:http://" {
+						o.out = append(o.out, "X:fence-answer:"+item)
+					}
+					break
+				}
+			}
+			o.out = append(o.out, item)
+			o.raw = append(o.raw, raw...)
+		}
+		o.calls = r.rec.take()
+		// the fence's own commit-index read is the last call
+		if n := len(o.calls); n > 0 && o.calls[n-1] == "CommitIndex" {
+			o.calls = o.calls[:n-1]
+		} else {
+			o.calls = append(o.calls, "X:fence-without-CommitIndex")
+		}
+		for len(hwm) > 0 {
+			<-hwm
+			o.calls = append(o.calls, "HWM")
+		}
+		obs = append(obs, o)
+	}
+	// nothing may follow the last fence
+	conn.(*net.TCPConn).CloseWrite()
+	if rest, _ := io.ReadAll(br); len(rest) > 0 && len(obs) > 0 {
+		extra, expanded := c18ParseNodeOut(rest)
+		obs[len(obs)-1].out = append(obs[len(obs)-1].out, extra...)
+		obs[len(obs)-1].raw = append(obs[len(obs)-1].raw, expanded...)
+	}
+	return obs, nil
+}
+
 // ---------------------------------------------------------------- one case
 
 func c18CoqFile(in c18Input) string {
@@ -710,45 +917,67 @@ var c18TypeByName = func() map[string]clstrPB.Command_Type {
 }()
 
 func c18Run(w *vWriter, r *c18Rig, in c18Input) {
-	if in.NoStore {
-		in.File = nil
+	c18RunConn(w, r, c18Conn{Kind: in.Kind, NoStore: in.NoStore, File: in.File,
+		Steps: []c18StepIn{{in.Endpoint, in.Variant, in.Present, in.User, in.Pass}}})
+}
+
+func c18RunConn(w *vWriter, r *c18Rig, cn c18Conn) {
+	if cn.NoStore {
+		cn.File = nil
 	} else {
-		js, _ := json.Marshal(c18FileJSON(in.File))
+		js, _ := json.Marshal(c18FileJSON(cn.File))
 		cs := auth.NewCredentialsStore()
 		if err := cs.Load(bytes.NewReader(js)); err != nil {
-			w.Emit(VCase{Input: in, Key: vJSON(in), Inconcl: "credentials file did not load: " + err.Error()})
+			w.Emit(VCase{Input: cn, Key: vJSON(cn), Inconcl: "credentials file did not load: " + err.Error()})
 			return
 		}
 		r.creds.set(cs)
 	}
-	var o c18Obs
+	var obs []c18Obs
 	var err error
-	if in.Kind == "http" {
-		o, err = c18HTTPExchange(r, in)
-	} else {
-		o, err = c18NodeExchange(r, in, c18TypeByName[in.Endpoint])
+	switch {
+	case len(cn.Steps) == 1 && cn.Kind == "http":
+		var o c18Obs
+		o, err = c18HTTPExchange(r, cn.step(0))
+		obs = []c18Obs{o}
+	case len(cn.Steps) == 1:
+		var o c18Obs
+		o, err = c18NodeExchange(r, cn.step(0), c18TypeByName[cn.Steps[0].Endpoint])
+		obs = []c18Obs{o}
+	case cn.Kind == "http":
+		obs, err = c18HTTPSeq(r, cn)
+	default:
+		obs, err = c18NodeSeq(r, cn)
 	}
-	if err != nil {
-		w.Emit(VCase{Input: in, Key: vJSON(in), OracleFail: "exchange failed: " + err.Error(), Sig: "C18:exchange-failed:" + in.Endpoint})
-		return
+	for len(obs) < len(cn.Steps) {
+		obs = append(obs, c18Obs{}) // requests the connection did not live to see answered
 	}
-	user, pass := in.User, in.Pass
-	if !in.Present {
-		user, pass = "", ""
+	c := VCase{Input: cn, Key: vJSON(cn), Tags: []string{cn.Kind, fmt.Sprintf("requests-on-connection=%d", len(cn.Steps))}}
+	var steps []string
+	for i := range cn.Steps {
+		in, o := cn.step(i), obs[i]
+		user, pass := in.User, in.Pass
+		if !in.Present {
+			user, pass = "", ""
+		}
+		voter := in.Variant != "non-voter"
+		pnil := in.Variant == "nil-payload" || in.Variant == "other-payload"
+		steps = append(steps, fmt.Sprintf("{| p_req := {| q_user := %s; q_pass := %s; q_endpoint := %s; q_nil := %s; q_voter := %s; q_method_ok := %s |}; p_calls := %s; p_out := %s |}",
+			coqStr(c18Ascii(user)), coqStr(c18Ascii(pass)), coqStr(in.Endpoint), coqBool(pnil), coqBool(voter),
+			coqBool(in.Variant != "wrong-method"), coqStrList(o.calls), c18CoqOut(o.out)))
+		c.Tags = append(c.Tags, "variant="+in.Variant)
+		c18Oracle(&c, in, o, voter, i)
 	}
-	voter := in.Variant != "non-voter"
-	pnil := in.Variant == "nil-payload" || in.Variant == "other-payload"
-	coq := fmt.Sprintf("{| c_file := %s; c_user := %s; c_pass := %s; c_endpoint := %s; c_nil := %s; c_voter := %s; c_method_ok := %s; c_calls := %s; c_out := %s |}",
-		c18CoqFile(in), coqStr(user), coqStr(pass), coqStr(in.Endpoint), coqBool(pnil), coqBool(voter),
-		coqBool(in.Variant != "wrong-method"), coqStrList(o.calls), c18CoqOut(o.out))
-
-	c := VCase{Input: in, Coq: coq, Key: vJSON(in), Tags: []string{in.Kind, "variant=" + in.Variant}}
-	c18Oracle(&c, in, o, voter)
+	c.Coq = fmt.Sprintf("{| c_file := %s; c_steps := %s |}", c18CoqFile(cn.step(0)), coqList(steps))
+	if err != nil && c.OracleFail == "" {
+		c.OracleFail = fmt.Sprintf("%s connection with %d request(s), store %s: exchange failed: %v", cn.Kind, len(cn.Steps), vJSON(cn.File), err)
+		c.Sig = "C18:exchange-failed:" + cn.Steps[0].Endpoint
+	}
 	w.Emit(c)
 }
 
 // c18Oracle is the property, stated on the observation alone.
-func c18Oracle(c *VCase, in c18Input, o c18Obs, voter bool) {
+func c18Oracle(c *VCase, in c18Input, o c18Obs, voter bool, stepIdx int) {
 	if in.NoStore {
 		c.Tags = append(c.Tags, "no-store")
 		return // the property speaks about configured credential stores
@@ -760,6 +989,10 @@ func c18Oracle(c *VCase, in c18Input, o c18Obs, voter bool) {
 			c.OracleFail = fmt.Sprintf("%s %s (variant %q) with store %s, credentials present=%v %q/%q: %s; calls=%v wire=%q",
 				in.Kind, in.Endpoint, in.Variant, vJSON(in.File), in.Present, in.User, in.Pass, msg, o.calls, o.out)
 			c.Sig = "C18:" + kind + ":" + in.Endpoint
+			if stepIdx > 0 && req != nil {
+				c.OracleFail = fmt.Sprintf("request #%d of its connection: ", stepIdx+1) + c.OracleFail
+				c.Sig += ":after-other-requests-on-the-connection"
+			}
 		}
 	}
 	if req == nil {
@@ -917,11 +1150,11 @@ func TestVerif_C18(t *testing.T) {
 	defer r.close()
 
 	if raw := vReplayInput(); raw != nil {
-		var in c18Input
-		if err := json.Unmarshal(raw, &in); err != nil {
+		var cn c18Conn
+		if err := json.Unmarshal(raw, &cn); err != nil {
 			t.Fatal(err)
 		}
-		c18Run(w, r, in)
+		c18RunConn(w, r, cn)
 		return
 	}
 
@@ -951,6 +1184,75 @@ func TestVerif_C18(t *testing.T) {
 		in := mk(s, nil, c18Presentations[rng.Intn(len(c18Presentations))])
 		in.NoStore = true
 		c18Run(w, r, in)
+	}
+	// several requests on ONE connection (inter-node: one TCP connection; HTTP: keep-alive), the
+	// credentials changing from request to request: every request must be judged on what IT carries
+	good, bad, empty, other, none, unknown := c18Pres{true, "u1", "pw1"}, c18Pres{true, "u1", "bad"}, c18Pres{true, "u1", ""},
+		c18Pres{true, "u2", "pw2"}, c18Pres{false, "", ""}, c18Pres{true, "zz", "pw1"}
+	patterns := [][]c18Pres{
+		{good, bad}, {bad, good}, {good, empty}, {good, other}, {other, good}, {good, none}, {none, good},
+		{good, unknown}, {good, bad, good, other}, {other, bad, good, bad, none},
+	}
+	allButAll := append([]string{}, c18Perms[1:]...)
+	seqStores := [][]c18Entry{
+		{{"u1", "pw1", []string{"all"}}, {"u2", "pw2", []string{}}},
+		{{"u1", "pw1", allButAll}, {"u2", "pw2", []string{"status"}}},
+		{{"*", "", []string{"ready"}}, {"u1", "pw1", []string{"all"}}, {"u2", "pw2", []string{"ui"}}},
+	}
+	seqable := func(s c18Shape) bool {
+		// a request that is never answered cannot be fenced; it is covered by the single exchanges
+		return s.endpoint != "COMMAND_TYPE_UNKNOWN" && s.endpoint != "unknown-type"
+	}
+	mkConn := func(kind string, f []c18Entry, shapes []c18Shape, ps []c18Pres) c18Conn {
+		cn := c18Conn{Kind: kind, File: f}
+		for i, p := range ps {
+			sh := shapes[i%len(shapes)]
+			cn.Steps = append(cn.Steps, c18StepIn{sh.endpoint, sh.variant, p.present, p.user, p.pass})
+		}
+		return cn
+	}
+	for si, f := range seqStores {
+		for _, s := range basic {
+			if !seqable(s) || c18Required(s.endpoint, s.variant != "non-voter") == nil {
+				continue
+			}
+			for pi, ps := range patterns {
+				if si > 0 && pi%3 != si {
+					continue
+				}
+				// the same endpoint throughout
+				c18RunConn(w, r, mkConn(s.kind, f, []c18Shape{s}, ps))
+			}
+		}
+	}
+	// different endpoints of the same service on one connection (a grant for one must not leak to another)
+	byKind := map[string][]c18Shape{}
+	for _, s := range append(append([]c18Shape{}, basic...), variants...) {
+		if seqable(s) {
+			byKind[s.kind] = append(byKind[s.kind], s)
+		}
+	}
+	nseq := vN(300, 6000)
+	for i := 0; i < nseq; i++ {
+		kind := []string{"node", "node", "http"}[rng.Intn(3)]
+		pool := byKind[kind]
+		f := seqStores[rng.Intn(len(seqStores))]
+		if rng.Intn(3) == 0 {
+			f = c18RandomStore(rng)
+		}
+		l := 2 + rng.Intn(4)
+		var shapes []c18Shape
+		var ps []c18Pres
+		base := pool[rng.Intn(len(pool))]
+		for j := 0; j < l; j++ {
+			if rng.Intn(2) == 0 {
+				shapes = append(shapes, base)
+			} else {
+				shapes = append(shapes, pool[rng.Intn(len(pool))])
+			}
+			ps = append(ps, []c18Pres{good, good, bad, empty, other, none, unknown}[rng.Intn(7)])
+		}
+		c18RunConn(w, r, mkConn(kind, f, shapes, ps))
 	}
 	// random stores
 	all := append(append([]c18Shape{}, basic...), variants...)
